@@ -1369,6 +1369,12 @@ class Config:  # pylint: disable=too-many-instance-attributes
         """
         for key, value in tree.items():
             field = self._get_field(key)
+            if isinstance(field, InstanceMethodFieldMixin) or (
+                isinstance(field, VirtualFieldMixin)
+                and getattr(field, "setter", None) is None
+            ):
+                # derived, read-only fields: a tree rendered with virtual=True carries them
+                continue
             if isinstance(field, Field):
                 if (
                     isinstance(field.env, str)
